@@ -8,6 +8,12 @@
 //!   EN <set> <bo> <prefix> <case> <payload>        typed Variant (V), derived enum (D), dbus_variant_sig! (S),
 //!                                                  dbus_variant_var! (M), Param variant (P): encode, decode 5x5
 //!   EO <set> <bo> <prefix> <other> <value>         prefix u8s, variant of <other>, u32 AFTER, trailer u8: the three enums read the variant
+//!   CV <C|R> <base value>                          one Base built through From<T> (C) / From<&T>, &str (R): every TryFrom<&Base>, as_*, into_* that succeeds
+//!   CF                                             conversions and constructors that must refuse (empty containers without signature, mixed element types, ...)
+//! In ST and EN the Param tree is built three ways: P = enum literals, C = the public conversion API (From<T>/From<&T> for Base
+//! and Param, TryFrom for Container, Container::make_* / push / insert), R = the borrowed flavours (StringRef/SignatureRef/
+//! ObjectPathRef, ArrayRef/StructRef/DictRef through make_*_ref); decoder X = get_param() read back through
+//! TryFrom<&Base> / as_* / into_* / From<&Param> for Type.
 //! Type names: D-Bus signatures with `<..>` for a derived struct and `v[..]` for a variant of known content.
 use rbverif::hex;
 use rbverif::wirelib::*;
@@ -243,6 +249,534 @@ fn base_tok(b: &Base, out: &mut Vec<String>) {
     out.push(v);
 }
 
+
+// ------------------------------------------------------------------------------------------------ Param trees through the conversion API
+fn leak<T>(x: T) -> &'static T {
+    Box::leak(Box::new(x))
+}
+fn leak_str(s: String) -> &'static str {
+    Box::leak(s.into_boxed_str())
+}
+fn leak_slice<T>(v: Vec<T>) -> &'static [T] {
+    Box::leak(v.into_boxed_slice())
+}
+
+/// builds Param trees through params/conversion.rs and params/container_constructors.rs; `n` rotates between
+/// the alternative ways to build the same thing so that every conversion is used
+struct Conv {
+    mode: char, // 'C' owned values through conversions, 'R' borrowed flavours
+    n: usize,
+}
+macro_rules! conv_num {
+    ($self:ident, $v:expr) => {{
+        let v = $v;
+        if $self.mode == 'R' || $self.tick() % 2 == 0 {
+            Base::from(leak(v)) // From<&'a T> for Base<'a>
+        } else {
+            Base::from(v) // From<T> for Base
+        }
+    }};
+}
+impl Conv {
+    fn tick(&mut self) -> usize {
+        self.n += 1;
+        self.n
+    }
+    fn base(&mut self, a: &mut Args, tag: &str) -> Base<'static> {
+        match tag {
+            "y" => conv_num!(self, a.num() as u8),
+            "b" => conv_num!(self, a.num() != 0),
+            "n" => conv_num!(self, a.num() as u16 as i16),
+            "q" => conv_num!(self, a.num() as u16),
+            "i" => conv_num!(self, a.num() as u32 as i32),
+            "u" => conv_num!(self, a.num() as u32),
+            "x" => conv_num!(self, a.num() as i64),
+            "t" => conv_num!(self, a.num()),
+            "d" => conv_num!(self, f64::from_bits(a.num())),
+            "s" => {
+                let s = String::from_utf8(rbverif::unhex(a.next())).unwrap();
+                if self.mode == 'R' {
+                    Base::from(leak_str(s)) // From<&'a str>: StringRef
+                } else {
+                    Base::from(s) // From<String>
+                }
+            }
+            // object paths and signatures have no From impl
+            "o" => {
+                let s = String::from_utf8(rbverif::unhex(a.next())).unwrap();
+                if self.mode == 'R' {
+                    Base::ObjectPathRef(leak_str(s))
+                } else {
+                    Base::ObjectPath(s)
+                }
+            }
+            "g" => {
+                let s = String::from_utf8(rbverif::unhex(a.next())).unwrap();
+                if self.mode == 'R' {
+                    Base::SignatureRef(leak_str(s))
+                } else {
+                    Base::Signature(s)
+                }
+            }
+            x => panic!("base tag {}", x),
+        }
+    }
+    fn param(&mut self, a: &mut Args) -> Result<Param<'static, 'static>, String> {
+        use std::convert::TryFrom;
+        let tag = a.next();
+        let c: Container<'static, 'static> = match tag {
+            "a" => {
+                let esig = a.next();
+                let n = a.num();
+                let mut elems = Vec::new();
+                for _ in 0..n {
+                    elems.push(self.param(a)?);
+                }
+                if self.mode == 'R' {
+                    if self.tick() % 2 == 0 {
+                        Container::make_array_ref(esig, leak_slice(elems)).map_err(|e| format!("{:?}", e))?
+                    } else {
+                        Container::make_array_ref_with_sig(parse_one_type(esig), leak_slice(elems)).map_err(|e| format!("{:?}", e))?
+                    }
+                } else {
+                    match self.tick() % 5 {
+                        0 => Container::make_array(esig, elems.into_iter()).map_err(|e| format!("{:?}", e))?,
+                        1 => Container::try_from((parse_one_type(esig), elems)).map_err(|e| format!("{:?}", e))?,
+                        2 if !elems.is_empty() => Container::try_from(elems).map_err(|e| format!("{:?}", e))?,
+                        3 => Container::make_array_with_sig(parse_one_type(esig), elems.into_iter()).map_err(|e| format!("{:?}", e))?,
+                        _ => {
+                            let mut c = Container::make_array(esig, std::iter::empty::<Param>()).map_err(|e| format!("{:?}", e))?;
+                            for e in elems {
+                                c.push(e).map_err(|e| format!("{:?}", e))?;
+                            }
+                            c
+                        }
+                    }
+                }
+            }
+            "r" => {
+                let n = a.num();
+                let mut fields = Vec::new();
+                for _ in 0..n {
+                    fields.push(self.param(a)?);
+                }
+                if self.mode == 'R' {
+                    Container::make_struct_ref(leak_slice(fields))
+                } else {
+                    match (self.tick() % 3, fields.len()) {
+                        (1, 1) => {
+                            let mut it = fields.into_iter();
+                            Container::make_struct1(it.next().unwrap())
+                        }
+                        (1, 2) => {
+                            let mut it = fields.into_iter();
+                            Container::make_struct2(it.next().unwrap(), it.next().unwrap())
+                        }
+                        (1, 3) => {
+                            let mut it = fields.into_iter();
+                            Container::make_struct3(it.next().unwrap(), it.next().unwrap(), it.next().unwrap())
+                        }
+                        (2, _) => {
+                            let mut c = Container::Struct(Vec::new());
+                            for f in fields {
+                                c.push(f).map_err(|e| format!("{:?}", e))?;
+                            }
+                            c
+                        }
+                        _ => Container::make_struct(fields),
+                    }
+                }
+            }
+            "e" => {
+                let ks = a.next();
+                let vs = a.next();
+                let n = a.num();
+                let mut pairs = Vec::new();
+                for _ in 0..n {
+                    let kt = a.next();
+                    let k = self.base(a, kt);
+                    let v = self.param(a)?;
+                    pairs.push((k, v));
+                }
+                let kbase = match parse_one_type(ks) {
+                    signature::Type::Base(b) => b,
+                    _ => panic!("dict key sig"),
+                };
+                if self.mode == 'R' {
+                    let map: rustbus::params::DictMap = pairs.into_iter().collect();
+                    if self.tick() % 2 == 0 {
+                        Container::make_dict_ref(ks, vs, leak(map)).map_err(|e| format!("{:?}", e))?
+                    } else {
+                        Container::make_dict_ref_with_sig(kbase, parse_one_type(vs), leak(map)).map_err(|e| format!("{:?}", e))?
+                    }
+                } else {
+                    match self.tick() % 5 {
+                        0 => Container::make_dict(ks, vs, pairs.into_iter()).map_err(|e| format!("{:?}", e))?,
+                        1 => {
+                            let map: rustbus::params::DictMap = pairs.into_iter().collect();
+                            Container::try_from((kbase, parse_one_type(vs), map)).map_err(|e| format!("{:?}", e))?
+                        }
+                        2 if !pairs.is_empty() => {
+                            let map: rustbus::params::DictMap = pairs.into_iter().collect();
+                            Container::try_from(map).map_err(|e| format!("{:?}", e))?
+                        }
+                        3 => Container::make_dict_with_sig(kbase, parse_one_type(vs), pairs.into_iter()).map_err(|e| format!("{:?}", e))?,
+                        _ => {
+                            let mut c = Container::make_dict(ks, vs, std::iter::empty::<(Base, Param)>()).map_err(|e| format!("{:?}", e))?;
+                            for (k, v) in pairs {
+                                c.insert(k, v).map_err(|e| format!("{:?}", e))?;
+                            }
+                            c
+                        }
+                    }
+                }
+            }
+            "v" => {
+                let _sig = a.next();
+                let inner = self.param(a)?;
+                Container::make_variant(inner)
+            }
+            t => return Ok(Param::from(self.base(a, t))), // From<B: Into<Base>> for Param
+        };
+        Ok(Param::from(c)) // From<Container> for Param
+    }
+}
+
+/// the three ways to print a Param's signature agree: "<sig>" or "DIFF(..)"
+fn sigs_of(p: &Param) -> String {
+    let mut a = String::new();
+    p.make_signature(&mut a);
+    let b = sig_str(&p.sig());
+    let c = sig_str(&signature::Type::from(p));
+    if a == b && b == c {
+        a
+    } else {
+        format!("DIFF({},{},{})", a, b, c)
+    }
+}
+
+/// a decoded Param printed through the reading side of the conversion API; every inconsistency between the
+/// alternative accessors shows up as a CONVBUG token (so the value no longer compares equal)
+fn conv_tok(p: &Param, out: &mut Vec<String>) {
+    use std::convert::TryFrom;
+    macro_rules! chk {
+        ($c:expr, $what:expr) => {
+            if !$c {
+                out.push(format!("CONVBUG:{}", $what));
+            }
+        };
+    }
+    if let Some(b) = p.as_base() {
+        let kind = signature::Base::from(b); // From<&Base> for signature::Base
+        match kind {
+            signature::Base::Byte => {
+                let v = u8::try_from(b).unwrap();
+                chk!(p.as_byte() == Some(&v) && b.as_byte() == Some(&v), "as_byte");
+                chk!(p.clone().into_byte().ok() == Some(v) && b.clone().into_byte().ok() == Some(v), "into_byte");
+                chk!(u16::try_from(b).is_err() && bool::try_from(b).is_err() && p.clone().into_u16().is_err(), "byte as other");
+                out.push("y".into());
+                out.push(v.to_string());
+            }
+            signature::Base::Boolean => {
+                let v = bool::try_from(b).unwrap();
+                chk!(p.as_bool() == Some(&v) && b.as_bool() == Some(&v), "as_bool");
+                chk!(p.clone().into_bool().ok() == Some(v) && b.clone().into_bool().ok() == Some(v), "into_bool");
+                chk!(u32::try_from(b).is_err() && p.clone().into_u32().is_err(), "bool as other");
+                out.push("b".into());
+                out.push((v as u64).to_string());
+            }
+            signature::Base::Int16 => {
+                let v = i16::try_from(b).unwrap();
+                chk!(p.as_i16() == Some(&v) && b.as_i16() == Some(&v), "as_i16");
+                chk!(p.clone().into_i16().ok() == Some(v) && b.clone().into_i16().ok() == Some(v), "into_i16");
+                chk!(u16::try_from(b).is_err() && p.clone().into_u16().is_err() && p.as_u16().is_none(), "i16 as other");
+                out.push("n".into());
+                out.push((v as u16 as u64).to_string());
+            }
+            signature::Base::Uint16 => {
+                let v = u16::try_from(b).unwrap();
+                chk!(p.as_u16() == Some(&v) && b.as_u16() == Some(&v), "as_u16");
+                chk!(p.clone().into_u16().ok() == Some(v) && b.clone().into_u16().ok() == Some(v), "into_u16");
+                chk!(i16::try_from(b).is_err() && p.clone().into_i16().is_err() && p.as_i16().is_none(), "u16 as other");
+                out.push("q".into());
+                out.push((v as u64).to_string());
+            }
+            signature::Base::Int32 => {
+                let v = i32::try_from(b).unwrap();
+                chk!(p.as_i32() == Some(&v) && b.as_i32() == Some(&v), "as_i32");
+                chk!(p.clone().into_i32().ok() == Some(v) && b.clone().into_i32().ok() == Some(v), "into_i32");
+                chk!(u32::try_from(b).is_err() && p.clone().into_u32().is_err() && p.as_u32().is_none(), "i32 as other");
+                out.push("i".into());
+                out.push((v as u32 as u64).to_string());
+            }
+            signature::Base::Uint32 => {
+                let v = u32::try_from(b).unwrap();
+                chk!(p.as_u32() == Some(&v) && b.as_u32() == Some(&v), "as_u32");
+                chk!(p.clone().into_u32().ok() == Some(v) && b.clone().into_u32().ok() == Some(v), "into_u32");
+                chk!(i32::try_from(b).is_err() && p.clone().into_i32().is_err() && p.as_i32().is_none(), "u32 as other");
+                out.push("u".into());
+                out.push((v as u64).to_string());
+            }
+            signature::Base::Int64 => {
+                let v = i64::try_from(b).unwrap();
+                chk!(p.as_i64() == Some(&v) && b.as_i64() == Some(&v), "as_i64");
+                chk!(p.clone().into_i64().ok() == Some(v) && b.clone().into_i64().ok() == Some(v), "into_i64");
+                chk!(u64::try_from(b).is_err() && f64::try_from(b).is_err() && p.clone().into_u64().is_err(), "i64 as other");
+                out.push("x".into());
+                out.push((v as u64).to_string());
+            }
+            signature::Base::Uint64 => {
+                let v = u64::try_from(b).unwrap();
+                chk!(p.as_u64() == Some(&v) && b.as_u64() == Some(&v), "as_u64");
+                chk!(p.clone().into_u64().ok() == Some(v) && b.clone().into_u64().ok() == Some(v), "into_u64");
+                chk!(i64::try_from(b).is_err() && f64::try_from(b).is_err() && p.clone().into_f64().is_err(), "u64 as other");
+                out.push("t".into());
+                out.push(v.to_string());
+            }
+            signature::Base::Double => {
+                let v = f64::try_from(b).unwrap().to_bits();
+                chk!(p.clone().into_f64().ok().map(|x| x.to_bits()) == Some(v), "into_f64");
+                chk!(b.clone().into_f64().ok().map(|x| x.to_bits()) == Some(v), "Base::into_f64");
+                chk!(u64::try_from(b).is_err() && p.clone().into_u64().is_err() && p.as_u64().is_none(), "f64 as other");
+                out.push("d".into());
+                out.push(v.to_string());
+            }
+            signature::Base::String => {
+                let v = match b {
+                    Base::StringRef(_) => <&str>::try_from(b).unwrap().to_owned(),
+                    _ => {
+                        chk!(<&str>::try_from(b).is_err(), "owned string as &str");
+                        String::try_from(b).unwrap()
+                    }
+                };
+                chk!(p.as_str() == Some(v.as_str()) && b.as_str() == Some(v.as_str()), "as_str");
+                chk!(p.clone().into_string().ok().or(p.clone().into_str().ok().map(|x| x.to_owned())) == Some(v.clone()), "into_string");
+                chk!(u8::try_from(b).is_err(), "string as other");
+                out.push("s".into());
+                out.push(hex(v.as_bytes()));
+            }
+            signature::Base::ObjectPath => {
+                chk!(String::try_from(b).is_err() && p.as_str().is_none(), "path as string");
+                match b {
+                    Base::ObjectPath(s) => {
+                        out.push("o".into());
+                        out.push(hex(s.as_bytes()));
+                    }
+                    Base::ObjectPathRef(s) => {
+                        out.push("o".into());
+                        out.push(hex(s.as_bytes()));
+                    }
+                    _ => out.push("CONVBUG:path kind".into()),
+                }
+            }
+            signature::Base::Signature => {
+                chk!(String::try_from(b).is_err() && p.as_str().is_none(), "signature as string");
+                match b {
+                    Base::Signature(s) => {
+                        out.push("g".into());
+                        out.push(hex(s.as_bytes()));
+                    }
+                    Base::SignatureRef(s) => {
+                        out.push("g".into());
+                        out.push(hex(s.as_bytes()));
+                    }
+                    _ => out.push("CONVBUG:signature kind".into()),
+                }
+            }
+            signature::Base::UnixFd => out.push("CONVBUG:fd".into()),
+        }
+        return;
+    }
+    chk!(p.as_base().is_none() && p.clone().into_container().is_ok(), "into_container");
+    let ty = signature::Type::from(p); // From<&Param> for Type
+    chk!(ty == p.sig(), "Type::from vs sig()");
+    match ty {
+        signature::Type::Container(signature::Container::Array(elem)) => {
+            let items = p.as_slice().unwrap_or(&[]);
+            chk!(p.as_slice().is_some(), "as_slice(array)");
+            out.push("a".into());
+            out.push(sig_str(&elem));
+            out.push(items.len().to_string());
+            for x in items {
+                conv_tok(x, out);
+            }
+        }
+        signature::Type::Container(signature::Container::Struct(_)) => {
+            let items = p.as_slice().unwrap_or(&[]);
+            chk!(p.as_slice().is_some(), "as_slice(struct)");
+            out.push("r".into());
+            out.push(items.len().to_string());
+            for x in items {
+                conv_tok(x, out);
+            }
+        }
+        signature::Type::Container(signature::Container::Dict(k, v)) => {
+            chk!(p.as_slice().is_none(), "as_slice(dict)");
+            if let Ok(Container::Dict(d)) = p.clone().into_container() {
+                out.push("e".into());
+                out.push(sig_str(&signature::Type::Base(k)));
+                out.push(sig_str(&v));
+                out.push(d.map.len().to_string());
+                let mut entries: Vec<Vec<String>> = d
+                    .map
+                    .iter()
+                    .map(|(k, v)| {
+                        let mut e = Vec::new();
+                        conv_tok(&Param::from(k.clone()), &mut e);
+                        conv_tok(v, &mut e);
+                        e
+                    })
+                    .collect();
+                entries.sort();
+                for e in entries {
+                    out.extend(e);
+                }
+            } else {
+                out.push("CONVBUG:dict".into());
+            }
+        }
+        signature::Type::Container(signature::Container::Variant) => {
+            if let Ok(Container::Variant(v)) = p.clone().into_container() {
+                out.push("v".into());
+                out.push(sig_str(&v.sig));
+                chk!(v.sig == v.value.sig(), "variant sig");
+                conv_tok(&v.value, out);
+            } else {
+                out.push("CONVBUG:variant".into());
+            }
+        }
+        _ => out.push("CONVBUG:type".into()),
+    }
+}
+fn read_param_conv(p: &mut MessageBodyParser) -> String {
+    let r = p.get_param();
+    match r {
+        Ok(v) => {
+            let mut out = Vec::new();
+            conv_tok(&v, &mut out);
+            drop(v);
+            format!("ok,{},{}", trailer(p), out.join("_"))
+        }
+        Err(e) => err_name(&e).to_string(),
+    }
+}
+
+/// CV: one Base through From, then everything the reading side offers
+fn cv(mode: &str, rest: &str) -> String {
+    use std::convert::TryFrom;
+    let mut a = Args::new(rest);
+    let tag = a.next();
+    let mut c = Conv { mode: mode.chars().next().unwrap(), n: 0 };
+    let b = c.base(&mut a, tag);
+    let p = Param::from(b.clone());
+    let mut out = vec![format!("sig={}", sigs_of(&p))];
+    macro_rules! t {
+        ($name:expr, $e:expr) => {
+            if let Some(v) = $e {
+                out.push(format!("{}:{}", $name, v));
+            }
+        };
+    }
+    t!("try_bool", bool::try_from(&b).ok().map(|x| x as u64));
+    t!("try_u8", u8::try_from(&b).ok());
+    t!("try_u16", u16::try_from(&b).ok());
+    t!("try_u32", u32::try_from(&b).ok());
+    t!("try_u64", u64::try_from(&b).ok());
+    t!("try_i16", i16::try_from(&b).ok().map(|x| x as u16));
+    t!("try_i32", i32::try_from(&b).ok().map(|x| x as u32));
+    t!("try_i64", i64::try_from(&b).ok().map(|x| x as u64));
+    t!("try_f64", f64::try_from(&b).ok().map(|x| x.to_bits()));
+    t!("try_String", String::try_from(&b).ok().map(|x| hex(x.as_bytes())));
+    t!("try_str", <&str>::try_from(&b).ok().map(|x| hex(x.as_bytes())));
+    t!("as_bool", p.as_bool().map(|x| *x as u64));
+    t!("as_byte", p.as_byte());
+    t!("as_u16", p.as_u16());
+    t!("as_u32", p.as_u32());
+    t!("as_u64", p.as_u64());
+    t!("as_i16", p.as_i16().map(|x| *x as u16));
+    t!("as_i32", p.as_i32().map(|x| *x as u32));
+    t!("as_i64", p.as_i64().map(|x| *x as u64));
+    t!("as_str", p.as_str().map(|x| hex(x.as_bytes())));
+    t!("into_bool", p.clone().into_bool().ok().map(|x| x as u64));
+    t!("into_byte", p.clone().into_byte().ok());
+    t!("into_u16", p.clone().into_u16().ok());
+    t!("into_u32", p.clone().into_u32().ok());
+    t!("into_u64", p.clone().into_u64().ok());
+    t!("into_i16", p.clone().into_i16().ok().map(|x| x as u16));
+    t!("into_i32", p.clone().into_i32().ok().map(|x| x as u32));
+    t!("into_i64", p.clone().into_i64().ok().map(|x| x as u64));
+    t!("into_f64", p.clone().into_f64().ok().map(|x| x.to_bits()));
+    t!("into_string", p.clone().into_string().ok().map(|x| hex(x.as_bytes())));
+    t!("into_str", p.clone().into_str().ok().map(|x| hex(x.as_bytes())));
+    // the Base-level twins must agree with the Param-level ones
+    let twins = b.as_bool().map(|x| *x as u64) == p.as_bool().map(|x| *x as u64)
+        && b.as_byte() == p.as_byte()
+        && b.as_u16() == p.as_u16()
+        && b.as_u32() == p.as_u32()
+        && b.as_u64() == p.as_u64()
+        && b.as_i16() == p.as_i16()
+        && b.as_i32() == p.as_i32()
+        && b.as_i64() == p.as_i64()
+        && b.as_str() == p.as_str()
+        && b.clone().into_f64().ok().map(|x| x.to_bits()) == p.clone().into_f64().ok().map(|x| x.to_bits())
+        && b.clone().into_u64().ok() == p.clone().into_u64().ok()
+        && b.clone().into_string().ok() == p.clone().into_string().ok()
+        && b.clone().into_str().ok() == p.clone().into_str().ok()
+        && p.as_base() == Some(&b)
+        && p.as_slice().is_none()
+        && p.clone().into_container().is_err();
+    out.push(format!("twins={}", twins));
+    out.join(" ")
+}
+
+/// CF: what the constructors and conversions must refuse
+fn cf() -> String {
+    use rustbus::params::DictMap;
+    use std::convert::TryFrom;
+    let u = || Param::from(1u32);
+    let s = || Param::from("x".to_owned());
+    let ty = |x: &str| parse_one_type(x);
+    let r = |b: bool| if b { "refused" } else { "ACCEPTED" };
+    let mut out = Vec::new();
+    out.push(format!("empty_vec={}", r(Container::try_from(Vec::<Param>::new()).is_err())));
+    out.push(format!("empty_map={}", r(Container::try_from(DictMap::new()).is_err())));
+    out.push(format!("mixed_vec={}", r(Container::try_from(vec![u(), s()]).is_err())));
+    out.push(format!("mixed_with_sig={}", r(Container::try_from((ty("u"), vec![u(), s()])).is_err())));
+    out.push(format!("wrong_elem_sig={}", r(Container::try_from((ty("s"), vec![u()])).is_err())));
+    out.push(format!("make_array_wrong={}", r(Container::make_array("s", vec![u()].into_iter()).is_err())));
+    out.push(format!("make_array_two_types={}", r(Container::make_array("us", vec![u()].into_iter()).is_err())));
+    out.push(format!("make_array_bad_sig={}", r(Container::make_array("(", vec![u()].into_iter()).is_err())));
+    out.push(format!("make_array_ref_wrong={}", r(Container::make_array_ref("s", leak_slice(vec![u()])).is_err())));
+    let mut m = DictMap::new();
+    m.insert(Base::from(1u8), s());
+    out.push(format!("dict_wrong_key={}", r(Container::try_from((signature::Base::String, ty("s"), m.clone())).is_err())));
+    out.push(format!("dict_wrong_val={}", r(Container::try_from((signature::Base::Byte, ty("u"), m.clone())).is_err())));
+    out.push(format!("make_dict_key_not_base={}", r(Container::make_dict("v", "s", m.clone().into_iter()).is_err())));
+    out.push(format!("make_dict_wrong={}", r(Container::make_dict("s", "s", m.clone().into_iter()).is_err())));
+    out.push(format!("make_dict_ref_wrong={}", r(Container::make_dict_ref("y", "u", leak(m.clone())).is_err())));
+    let mut mixed = DictMap::new();
+    mixed.insert(Base::from(1u8), s());
+    mixed.insert(Base::from(2u8), u());
+    out.push(format!("mixed_map={}", r(Container::try_from(mixed).is_err())));
+    let mut arr = Container::make_array("u", vec![u()].into_iter()).unwrap();
+    out.push(format!("push_wrong={}", r(arr.push(s()).is_err())));
+    out.push(format!("push_right={}", r(arr.push(u()).is_err())));
+    out.push(format!("insert_into_array={}", r(arr.insert(1u8, u()).is_err())));
+    let mut d = Container::try_from(m).unwrap();
+    out.push(format!("insert_wrong_key={}", r(d.insert("k", s()).is_err())));
+    out.push(format!("insert_wrong_val={}", r(d.insert(3u8, u()).is_err())));
+    out.push(format!("insert_right={}", r(d.insert(3u8, s()).is_err())));
+    out.push(format!("push_into_dict={}", r(d.push(u()).is_err())));
+    let mut v = Container::make_variant(u());
+    out.push(format!("push_into_variant={}", r(v.push(u()).is_err())));
+    // accepted things, for contrast: their signatures
+    out.push(format!("ok_vec={}", Container::try_from(vec![u(), u()]).map(|c| sigs_of(&Param::from(c))).unwrap_or("ERR".into())));
+    out.push(format!("ok_map={}", sigs_of(&Param::from(d))));
+    out.push(format!("ok_struct={}", sigs_of(&Param::from(Container::make_struct2(1u8, "x")))));
+    out.push(format!("ok_variant={}", sigs_of(&Param::from(v))));
+    out.join(" ")
+}
+
 // ------------------------------------------------------------------------------------------------ bodies
 /// a message whose body has `prefix` u8 parameters (the wrapper gives access to signature and bytes)
 fn new_body(bo: rustbus::ByteOrder, prefix: u64) -> MarshalledMessage {
@@ -330,24 +864,40 @@ where
     D: Tok + Marshal + for<'b, 'f> Unmarshal<'b, 'f>,
 {
     let mut out = Vec::new();
-    for api in ["T", "D", "P"] {
+    for (k, api) in ["T", "D", "P", "C", "R"].iter().enumerate() {
+        let api = *api;
         let mut msg = new_body(bo, prefix);
         let ok = match api {
             "T" => msg.body.push_param(&T::from_tok(&mut Args::new(rest))).is_ok(),
             "D" => msg.body.push_param(&D::from_tok(&mut Args::new(rest))).is_ok(),
-            _ => msg.body.push_old_param(&param_from(&mut Args::new(rest))).is_ok(),
+            "P" => msg.body.push_old_param(&param_from(&mut Args::new(rest))).is_ok(),
+            _ => {
+                // the rotation of constructor flavours starts at a point that depends on the case
+                let mut c = Conv { mode: api.chars().next().unwrap(), n: prefix as usize + k + rest.len() };
+                match c.param(&mut Args::new(rest)) {
+                    Ok(p) => {
+                        out.push(format!("sigs:{}={}", api, sigs_of(&p)));
+                        msg.body.push_old_param(&p).is_ok()
+                    }
+                    Err(e) => {
+                        out.push(format!("sigs:{}=CONVERR({})", api, e.replace(' ', "")));
+                        false
+                    }
+                }
+            }
         };
         out.push(enc_field(api, ok, &msg));
         if !ok {
             continue;
         }
         msg.body.push_param(TRAILER).unwrap();
-        for dec in ["T", "D", "P"] {
+        for dec in ["T", "D", "P", "X"] {
             let mut p = msg.body.parser();
             skip_prefix(&mut p, prefix);
             let r = match dec {
                 "T" => read_typed::<T>(&mut p),
                 "D" => read_typed::<D>(&mut p),
+                "X" => read_param_conv(&mut p),
                 _ => read_param(&mut p),
             };
             out.push(format!("dec:{}{}={}", api, dec, r));
@@ -516,7 +1066,6 @@ fn case_str<T: Tok + Signature>(i: usize, payload: &T) -> String {
 }
 
 trait EnumSet {
-    fn desc() -> &'static str;
     /// push the case `i` with the payload given by `rest` through API `api` (V, D, S, M)
     fn push(api: &str, i: usize, rest: &str, body: &mut MarshalledMessageBody) -> bool;
     /// get::<Var<T_i>>()
@@ -547,9 +1096,6 @@ macro_rules! push_case {
 
 struct Set1;
 impl EnumSet for Set1 {
-    fn desc() -> &'static str {
-        E1_DESC
-    }
     fn push(api: &str, i: usize, rest: &str, body: &mut MarshalledMessageBody) -> bool {
         match i {
             0 => push_case!(api, rest, body, u32, |x| E1D::A(x), |x| E1S::A(x), |x| E1M::A(x)),
@@ -596,9 +1142,6 @@ impl EnumSet for Set1 {
 
 struct Set2;
 impl EnumSet for Set2 {
-    fn desc() -> &'static str {
-        E2_DESC
-    }
     fn push(api: &str, i: usize, rest: &str, body: &mut MarshalledMessageBody) -> bool {
         match i {
             0 => push_case!(api, rest, body, u8, |x| E2D::A(x), |x| E2S::A(x), |x| E2M::A(x)),
@@ -658,19 +1201,154 @@ impl EnumSet for Set2 {
     }
 }
 
+
+// ---- E3: case signatures at and beyond the 255 bytes a variant's signature may have
+pub type A1 = (String, String, String, String); // (ssss): 6
+pub type A2 = (A1, A1, A1, A1); // 26
+pub type A3 = (A2, A2, A2, A2); // 106
+pub type Big = (A3, A3, A3); // 320
+pub type D11 = Vec<Vec<Vec<Vec<Vec<Vec<Vec<Vec<Vec<Vec<Vec<String>>>>>>>>>>>; // a^11 s: 12
+pub type D12 = Vec<D11>; // 13
+pub type D13 = Vec<D12>; // 14
+pub type T255 = (A3, A3, (A2, D12)); // 2 + 106 + 106 + (2 + 26 + 13) = 255
+pub type T256 = (A3, A3, (A2, D13)); // 256
+pub type Bm41 = (A2, D11, u8); // 2 + 26 + 12 + 1 = 41
+pub type Bm42 = (A2, D12, u8);
+pub type Bn41 = (A2, D11, bool);
+pub type Bn42 = (A2, D12, bool);
+pub type M255 = (A3, A3, Bm41); // as one tuple: what the macro enums hold for the multi-field cases
+pub type M256 = (A3, A3, Bm42);
+pub type N255 = (A3, A3, Bn41);
+pub type N256 = (A3, A3, Bn42);
+#[derive(Marshal, Unmarshal, Signature, Debug)]
+pub enum E3D {
+    S255(T255),
+    S256(T256),
+    SBig(Big),
+    M255(A3, A3, Bm41),
+    M256(A3, A3, Bm42),
+    N255 { a: A3, b: A3, c: Bn41 },
+    N256 { a: A3, b: A3, c: Bn42 },
+    MBig(A3, A3, A3),
+    NBig { a: A3, b: A3, c: A3 },
+}
+dbus_variant_sig!(E3S, S255 => T255; S256 => T256; SBig => Big; M255 => M255; M256 => M256; N255 => N255; N256 => N256; MBig => Big; NBig => Big);
+dbus_variant_var!(E3M, S255 => T255; S256 => T256; SBig => Big; M255 => M255; M256 => M256; N255 => N255; N256 => N256; MBig => Big; NBig => Big);
+fn e3_desc() -> String {
+    let a1 = "(ssss)".to_string();
+    let a2 = format!("({})", a1.repeat(4));
+    let a3 = format!("({})", a2.repeat(4));
+    let d = |n: usize| format!("{}s", "a".repeat(n));
+    let inner = |x: String| format!("{}{}{}", a3, a3, x);
+    [
+        format!("1:({})", inner(format!("({}{})", a2, d(12)))),
+        format!("1:({})", inner(format!("({}{})", a2, d(13)))),
+        format!("1:({})", inner(a3.clone())),
+        format!("m:{}", inner(format!("({}{}y)", a2, d(11)))),
+        format!("m:{}", inner(format!("({}{}y)", a2, d(12)))),
+        format!("n:{}", inner(format!("({}{}b)", a2, d(11)))),
+        format!("n:{}", inner(format!("({}{}b)", a2, d(12)))),
+        format!("m:{}", inner(a3.clone())),
+        format!("n:{}", inner(a3.clone())),
+    ]
+    .join("|")
+}
+struct Set3;
+impl EnumSet for Set3 {
+    fn push(api: &str, i: usize, rest: &str, body: &mut MarshalledMessageBody) -> bool {
+        match i {
+            0 => push_case!(api, rest, body, T255, |x| E3D::S255(x), |x| E3S::S255(x), |x| E3M::S255(x)),
+            1 => push_case!(api, rest, body, T256, |x| E3D::S256(x), |x| E3S::S256(x), |x| E3M::S256(x)),
+            2 => push_case!(api, rest, body, Big, |x| E3D::SBig(x), |x| E3S::SBig(x), |x| E3M::SBig(x)),
+            3 => push_case!(api, rest, body, M255, |x| E3D::M255(x.0, x.1, x.2), |x| E3S::M255(x), |x| E3M::M255(x)),
+            4 => push_case!(api, rest, body, M256, |x| E3D::M256(x.0, x.1, x.2), |x| E3S::M256(x), |x| E3M::M256(x)),
+            5 => push_case!(api, rest, body, N255, |x| E3D::N255 { a: x.0, b: x.1, c: x.2 }, |x| E3S::N255(x), |x| E3M::N255(x)),
+            6 => push_case!(api, rest, body, N256, |x| E3D::N256 { a: x.0, b: x.1, c: x.2 }, |x| E3S::N256(x), |x| E3M::N256(x)),
+            7 => push_case!(api, rest, body, Big, |x| E3D::MBig(x.0, x.1, x.2), |x| E3S::MBig(x), |x| E3M::MBig(x)),
+            8 => push_case!(api, rest, body, Big, |x| E3D::NBig { a: x.0, b: x.1, c: x.2 }, |x| E3S::NBig(x), |x| E3M::NBig(x)),
+            _ => panic!("case"),
+        }
+    }
+    fn read_v(i: usize, p: &mut MessageBodyParser) -> String {
+        match i {
+            0 => read_typed::<Var<T255>>(p),
+            1 => read_typed::<Var<T256>>(p),
+            3 => read_typed::<Var<M255>>(p),
+            4 => read_typed::<Var<M256>>(p),
+            5 => read_typed::<Var<N255>>(p),
+            6 => read_typed::<Var<N256>>(p),
+            _ => read_typed::<Var<Big>>(p),
+        }
+    }
+    fn read_enum(api: &str, p: &mut MessageBodyParser, inner: &dyn Fn(&rustbus::wire::unmarshal::traits::Variant) -> String) -> Result<String, UnmarshalError> {
+        Ok(match api {
+            "D" => match p.get::<E3D>()? {
+                E3D::S255(x) => case_str(0, &x),
+                E3D::S256(x) => case_str(1, &x),
+                E3D::SBig(x) => case_str(2, &x),
+                E3D::M255(a, b, c) => case_str(3, &(a, b, c)),
+                E3D::M256(a, b, c) => case_str(4, &(a, b, c)),
+                E3D::N255 { a, b, c } => case_str(5, &(a, b, c)),
+                E3D::N256 { a, b, c } => case_str(6, &(a, b, c)),
+                E3D::MBig(a, b, c) => case_str(7, &(a, b, c)),
+                E3D::NBig { a, b, c } => case_str(8, &(a, b, c)),
+            },
+            "S" => match p.get::<E3S>()? {
+                E3S::S255(x) => case_str(0, &x),
+                E3S::S256(x) => case_str(1, &x),
+                E3S::SBig(x) => case_str(2, &x),
+                E3S::M255(x) => case_str(3, &x),
+                E3S::M256(x) => case_str(4, &x),
+                E3S::N255(x) => case_str(5, &x),
+                E3S::N256(x) => case_str(6, &x),
+                E3S::MBig(x) => case_str(7, &x),
+                E3S::NBig(x) => case_str(8, &x),
+                E3S::Catchall(t) => format!("catch,{}", sig_str(&t)),
+            },
+            _ => match p.get::<E3M>()? {
+                E3M::S255(x) => case_str(0, &x),
+                E3M::S256(x) => case_str(1, &x),
+                E3M::SBig(x) => case_str(2, &x),
+                E3M::M255(x) => case_str(3, &x),
+                E3M::M256(x) => case_str(4, &x),
+                E3M::N255(x) => case_str(5, &x),
+                E3M::N256(x) => case_str(6, &x),
+                E3M::MBig(x) => case_str(7, &x),
+                E3M::NBig(x) => case_str(8, &x),
+                E3M::Catchall(v) => format!("catch,{},{}", sig_str(v.get_value_sig()), inner(&v)),
+            },
+        })
+    }
+}
+
 fn no_inner(_: &rustbus::wire::unmarshal::traits::Variant) -> String {
     "-".to_string()
 }
 
 fn en<E: EnumSet>(bo: rustbus::ByteOrder, prefix: u64, case: usize, rest: &str) -> String {
     let mut out = Vec::new();
-    for api in ["V", "D", "S", "M", "P"] {
+    for (k, api) in ["V", "D", "S", "M", "P", "C", "R"].iter().enumerate() {
+        let api = *api;
         let mut msg = new_body(bo, prefix);
         let ok = if api == "P" {
             // the Param variant: v <sig> <payload>
             let p = param_from(&mut Args::new(rest));
             let var = Param::Container(Container::Variant(Box::new(rustbus::params::Variant { sig: p.sig(), value: p })));
             msg.body.push_old_param(&var).is_ok()
+        } else if api == "C" || api == "R" {
+            let mut c = Conv { mode: api.chars().next().unwrap(), n: prefix as usize + k + rest.len() };
+            match c.param(&mut Args::new(rest)) {
+                Ok(p) => {
+                    let inner = sigs_of(&p);
+                    let var = Param::from(Container::make_variant(p));
+                    out.push(format!("sigs:{}={}/{}", api, sigs_of(&var), inner));
+                    msg.body.push_old_param(&var).is_ok()
+                }
+                Err(e) => {
+                    out.push(format!("sigs:{}=CONVERR({})", api, e.replace(' ', "")));
+                    false
+                }
+            }
         } else {
             E::push(api, case, rest, &mut msg.body)
         };
@@ -679,12 +1357,13 @@ fn en<E: EnumSet>(bo: rustbus::ByteOrder, prefix: u64, case: usize, rest: &str) 
             continue;
         }
         msg.body.push_param(TRAILER).unwrap();
-        for dec in ["V", "D", "S", "M", "P"] {
+        for dec in ["V", "D", "S", "M", "P", "X"] {
             let mut p = msg.body.parser();
             skip_prefix(&mut p, prefix);
             let r = match dec {
                 "V" => E::read_v(case, &mut p),
                 "P" => read_param(&mut p),
+                "X" => read_param_conv(&mut p),
                 _ => match E::read_enum(dec, &mut p, &no_inner) {
                     Ok(s) => format!("ok,{},{}", trailer(&mut p), s),
                     Err(e) => err_name(&e).to_string(),
@@ -751,7 +1430,12 @@ fn bo_of(s: &str) -> rustbus::ByteOrder {
 fn eval(line: &str) -> String {
     let op = line.split(' ').next().unwrap_or("");
     match op {
-        "LIST" => format!("shapes={} others={} E1={} E2={}", SHAPES.join(","), OTHERS.join(","), E1_DESC, E2_DESC),
+        "LIST" => format!("shapes={} others={} E1={} E2={} E3={}", SHAPES.join(","), OTHERS.join(","), E1_DESC, E2_DESC, e3_desc()),
+        "CV" => {
+            let (h, rest) = split_rest(line, 2);
+            cv(h[1], &rest)
+        }
+        "CF" => cf(),
         "ST" => {
             let (h, rest) = split_rest(line, 4);
             let bo = bo_of(h[2]);
@@ -772,6 +1456,7 @@ fn eval(line: &str) -> String {
             match h[1] {
                 "E1" => en::<Set1>(bo, prefix, case, &rest),
                 "E2" => en::<Set2>(bo, prefix, case, &rest),
+                "E3" => en::<Set3>(bo, prefix, case, &rest),
                 x => format!("BAD set {}", x),
             }
         }
